@@ -619,8 +619,9 @@ def run_lis(ctx, p, audit):
                 frames, tols = [], []
                 xs = [Fraction(x) for x in lp.x]
                 for fi in range(lp.total):
-                    row = []
+                    row, trow = [], []
                     for nm, ci, sc in cols:
+                        extra = 0
                         if ci is None:
                             row.append(xs[fi])
                         else:
@@ -632,8 +633,11 @@ def run_lis(ctx, p, audit):
                                 row.append(max(vals))
                             else:
                                 row.append(sum(vals) / len(vals))
+                                # float64 summation error of the mean, rigorous bound (cancelling samples of huge magnitude)
+                                extra = Fraction(21, 10) * Fraction(1, 2 ** 53) * sum(abs(x) for x in vals) * len(vals)
+                        trow.append(Fraction(1, 2 * 10 ** d) + abs(row[-1]) * Fraction(1, 10 ** 12) + Fraction(1, 10 ** 12) + extra)
                     frames.append(row)
-                    tols.append([Fraction(1, 2 * 10 ** d) + abs(v) * Fraction(1, 10 ** 12) + Fraction(1, 10 ** 12) for v in row])
+                    tols.append(trow)
                 stepped = (kind == 'sample' and args[0] < lp.total) or (kind == 'slice' and abs(args[2] or 1) > 1)
                 if lp.indirect and stepped:
                     # implied X of a stepped selection is finding F15 of C06 (wrong after a record boundary): not asserted twice
